@@ -202,4 +202,4 @@ def declare2(S: Spec):
              " for k in at_entry(keys(outstanding_pipelines)))"
              " for j in range(at_entry(len(pipeline_latencies_by_priority[pr])), len(pipeline_latencies_by_priority[pr]))) for pr in Priority)",
          ])},
-         note="block C of run_simulator main loop")
+         exists_mem_patterns=True, note="block C of run_simulator main loop")
